@@ -173,8 +173,11 @@ def run(tier):
         dl = 2400
     scs += lifecycle_scenarios(tier)
     rq_viols, rq_n = real_qt(tier)
-    race = [dict(scenario="c04h2", backlog=2, racer=1, bound=1, glib=1), dict(scenario="c04l1", backlog=2, bound=1, glib=1),
-            {"scenario": "c04xl", "hists-file": hist_file("c04-hist-race.txt", ["AMLLRMLX", "MLAR", "AMLXL", "AMLaL", "MLLALR 3 1", "AMLRML 2 1"]), "bound": 1, "glib": 1, "_shards": 6}]
+    race = [dict(scenario="c04h2", backlog=1, racer=1, bound=1, glib=1),
+            {"scenario": "c04xl", "hists-file": hist_file("c04-hist-race.txt", ["AMLLRMLX", "MLAR", "AMLXL", "AMLaL", "MLLALR 3 1", "AMLRML 2 1"]), "bound": 1 if tier != "quick" else 0, "glib": 1, "_shards": 6}]
+    if tier != "quick":
+        race += [dict(scenario="c04l1", backlog=2, bound=1, glib=1), dict(scenario="c04h4", backlog=2, bound=1, glib=0), dict(scenario="c04h2", backlog=2, racer=2, bound=1, glib=1),
+                 {"scenario": "c04xh", "hists-file": hist_file("c04-hist-4.txt", histories(4)), "bound": 0, "glib": 1, "_shards": 8}]
     return vsrun.vs_check(
         PROP, tier, scs, deadline_s=dl, race_scenarios=race,
         rule="every interleaving, up to the deviation bound, of the stopping thread, the worker thread and an optional racing producer, for each shutdown path (1 exec() returns -> aboutToQuit, "
